@@ -926,6 +926,29 @@ func sortedKeys(m map[string]*pb.StringSlice) []string {
 	return ks
 }
 
+// refMerkleRoot: the chain's Merkle tree over leaf hashes, independent of the executor's code: neighbours are hashed in pairs
+// (sha256 of left ‖ right), an odd last node is paired with itself on every level, the empty list has the zero hash
+func refMerkleRoot(leaves [][]byte) string {
+	if len(leaves) == 0 {
+		return (&types.Hash{}).String()
+	}
+	lv := append([][]byte{}, leaves...)
+	for {
+		if len(lv)%2 == 1 {
+			lv = append(lv, lv[len(lv)-1])
+		}
+		var nxt [][]byte
+		for i := 0; i < len(lv); i += 2 {
+			hh := sha256.Sum256(append(append([]byte{}, lv[i]...), lv[i+1]...))
+			nxt = append(nxt, hh[:])
+		}
+		if len(nxt) == 1 {
+			return types.NewHash(nxt[0]).String()
+		}
+		lv = nxt
+	}
+}
+
 func blockObs(n *node, h uint64, txs []pb.Transaction) string {
 	blk, err := n.ldg.GetBlock(h, false)
 	if err != nil {
@@ -984,6 +1007,27 @@ func blockObs(n *node, h uint64, txs []pb.Transaction) string {
 	// (a pipelined replica is read one block later: its chain meta may already be further on)
 	if m := n.ldg.GetChainMeta(); m.Height < h || (m.Height == h && m.BlockHash.String() != blk.BlockHash.String()) {
 		plink += "+meta"
+	}
+	// the transaction root and the receipt root of the stored header against the Merkle roots recomputed, by an implementation
+	// of the tree written here, from the transactions and receipts as they are read back from the store
+	if full, err := n.ldg.GetBlock(h, true); err == nil && full.Transactions != nil {
+		var tl, rl [][]byte
+		okRc := true
+		for _, tx := range full.Transactions.Transactions {
+			tl = append(tl, tx.GetHash().Bytes())
+			r, err := n.ldg.GetReceipt(tx.GetHash())
+			if err != nil {
+				okRc = false
+				break
+			}
+			rl = append(rl, r.Hash().Bytes())
+		}
+		if blk.BlockHeader.TxRoot == nil || refMerkleRoot(tl) != blk.BlockHeader.TxRoot.String() {
+			plink += "+txroot"
+		}
+		if okRc && (blk.BlockHeader.ReceiptRoot == nil || refMerkleRoot(rl) != blk.BlockHeader.ReceiptRoot.String()) {
+			plink += "+receiptroot"
+		}
 	}
 	rverdict, rcanon := routeObs(n, h)
 	return fmt.Sprintf("h=%d rc=[%s] counter={%s} timeout={%s} multi={%s} route={%s} ## rawtimeout={%s} rawmulti={%s} hash=%s sroot=%s troot=%s rroot=%s toroot=%s gas=[%s] plink=%s route=%s",
